@@ -162,3 +162,22 @@ Definition judge_sweep (c : sweep_case) : Z :=
         end
     | _ => 0
     end.
+
+(* ---------------- part 5: non-commutative operand order — ufunc.outer / ufunc.reduce / reflected calls against the
+   broadcasting spellings and NumPy's result on the densified operands.
+   (class, ufunc public name, ufunc method, [(outcome id, outcome kind, equals NumPy's dense result?)]) *)
+Definition order_case := (string * string * string * list (Z * Z * bool))%type.
+
+(* 0 ok | 7 observed kind contradicts the model's leaf | 1 the spellings disagree
+   | 2 they agree with each other but not with NumPy on the densified operands *)
+Definition judge_order (c : order_case) : Z :=
+  let '(cls, u, m, obs) := c in
+  let l := R cls (Ufunc u m) in
+  match obs with
+  | [] => 0
+  | (id0, k0, _) :: r =>
+      if negb (leaf_kind_ok l k0) then 7
+      else if negb (forallb (fun o => fst (fst o) =? id0) r) then 1
+      else if negb (forallb (fun o => snd o) obs) then 2
+      else 0
+  end.
